@@ -1,0 +1,187 @@
+//! C19 adapter, Kademlia part: the prost-generated decoder and `KademliaMessage::from_bytes`.
+
+use super::{
+    message::KademliaMessage,
+    record::{ContentProvider, Key as RecordKey, Record},
+    schema,
+    types::{ConnectionType, KademliaPeer},
+};
+use crate::verif::{hex, hexd, unhex};
+
+use bytes::BytesMut;
+use prost::Message;
+
+fn peer_pb(p: &schema::kademlia::Peer) -> String {
+    let addrs: Vec<String> = p.addrs.iter().map(|a| hexd(a)).collect();
+    format!("{{id={},addrs=[{}],conn={}}}", hexd(&p.id), addrs.join(";"), p.connection)
+}
+
+/// Canonical dump of `schema::kademlia::Message::decode`.
+pub(crate) fn pb(bytes: &[u8]) -> String {
+    match schema::kademlia::Message::decode(bytes) {
+        Err(_) => "err".into(),
+        Ok(m) => {
+            let rec = match &m.record {
+                None => "none".to_string(),
+                Some(r) => format!(
+                    "{{k={},v={},tr={},pub={},ttl={}}}",
+                    hexd(&r.key),
+                    hexd(&r.value),
+                    hexd(r.time_received.as_bytes()),
+                    hexd(&r.publisher),
+                    r.ttl
+                ),
+            };
+            let closer: Vec<String> = m.closer_peers.iter().map(peer_pb).collect();
+            let prov: Vec<String> = m.provider_peers.iter().map(peer_pb).collect();
+            format!(
+                "ok type={} clr={} key={} rec={} closer=[{}] prov=[{}]",
+                m.r#type,
+                m.cluster_level_raw,
+                hexd(&m.key),
+                rec,
+                closer.join(","),
+                prov.join(",")
+            )
+        }
+    }
+}
+
+fn peers_out(peers: &[KademliaPeer]) -> String {
+    let items: Vec<String> = peers
+        .iter()
+        .map(|p| {
+            format!(
+                "{}/{}/{}",
+                hex(&p.peer.to_bytes()),
+                p.address_store.addresses(usize::MAX).len(),
+                i32::from(p.connection)
+            )
+        })
+        .collect();
+    format!("[{}]", items.join(","))
+}
+
+fn record_out(r: &Record) -> String {
+    format!(
+        "{{k={},v={},pub={},exp={}}}",
+        hexd(r.key.as_ref()),
+        hexd(&r.value),
+        r.publisher.map(|p| hex(&p.to_bytes())).unwrap_or_else(|| "-".into()),
+        r.expires.is_some() as u8
+    )
+}
+
+fn key_out(k: &Option<RecordKey>) -> String {
+    k.as_ref().map(|k| hexd(k.as_ref())).unwrap_or_else(|| "none".into())
+}
+
+pub(crate) fn message_out(m: &Option<KademliaMessage>) -> String {
+    match m {
+        None => "none".into(),
+        Some(KademliaMessage::FindNode { target, peers }) =>
+            format!("findnode target={} peers={}", hexd(target), peers_out(peers)),
+        Some(KademliaMessage::PutValue { record }) => format!("putvalue rec={}", record_out(record)),
+        Some(KademliaMessage::GetRecord { key, record, peers }) => format!(
+            "getrecord key={} rec={} peers={}",
+            key_out(key),
+            record.as_ref().map(record_out).unwrap_or_else(|| "none".into()),
+            peers_out(peers)
+        ),
+        Some(KademliaMessage::AddProvider { key, providers }) =>
+            format!("addprovider key={} providers={}", hexd(key.as_ref()), peers_out(providers)),
+        Some(KademliaMessage::GetProviders { key, peers, providers }) => format!(
+            "getproviders key={} peers={} providers={}",
+            key_out(key),
+            peers_out(peers),
+            peers_out(providers)
+        ),
+    }
+}
+
+/// `KademliaMessage::from_bytes`, plus the validity of every address byte string in the message
+/// (the third-party `Multiaddr` parser is a parameter of the model).
+pub(crate) fn from_bytes(bytes: &[u8], replication_factor: usize) -> String {
+    let mut addrs: Vec<String> = Vec::new();
+    if let Ok(m) = schema::kademlia::Message::decode(bytes) {
+        for p in m.closer_peers.iter().chain(m.provider_peers.iter()) {
+            for a in &p.addrs {
+                let ok = multiaddr::Multiaddr::try_from(a.clone()).is_ok();
+                let item = format!("{}={}", hexd(a), ok as u8);
+                if !addrs.contains(&item) {
+                    addrs.push(item);
+                }
+            }
+        }
+    }
+    let out = KademliaMessage::from_bytes(BytesMut::from(bytes), replication_factor);
+    format!("{} #addrs {}", message_out(&out), addrs.join(","))
+}
+
+fn mk_peer(spec: &str) -> KademliaPeer {
+    // <peer index>:<n addresses>:<conn>
+    let f: Vec<&str> = spec.split(':').collect();
+    let idx: u64 = f[0].parse().expect("peer index");
+    let n: u16 = f[1].parse().expect("addresses");
+    let conn = ConnectionType::try_from(f[2].parse::<i32>().expect("conn")).expect("conn 0..3");
+    let addrs = (0..n)
+        .map(|i| format!("/ip4/10.0.0.{}/tcp/{}", 1 + idx % 200, 1000 + i).parse().expect("addr"))
+        .collect();
+    KademliaPeer::new(crate::verif::peer(idx), addrs, conn)
+}
+
+fn mk_peers(spec: &str) -> Vec<KademliaPeer> {
+    if spec == "-" {
+        vec![]
+    } else {
+        spec.split(',').map(mk_peer).collect()
+    }
+}
+
+fn mk_record(t: &[&str]) -> Record {
+    // <key hex> <value hex> <publisher index|-> <ttl: 0|1>
+    Record {
+        key: RecordKey::from(unhex(t[0])),
+        value: unhex(t[1]),
+        publisher: if t[2] == "-" { None } else { Some(crate::verif::peer(t[2].parse().expect("publisher"))) },
+        expires: if t[3] == "0" {
+            None
+        } else {
+            Some(std::time::Instant::now() + std::time::Duration::from_secs(3600))
+        },
+    }
+}
+
+/// The library's own encoders: `enc <kind> ...` returns the encoded bytes.
+pub(crate) fn encode(t: &[&str]) -> Option<Vec<u8>> {
+    Some(match t {
+        ["findnode", key] => KademliaMessage::find_node(unhex(key)).to_vec(),
+        ["putvalue", rest @ ..] if rest.len() == 4 => KademliaMessage::put_value(mk_record(rest)).to_vec(),
+        ["getrecord", key] => KademliaMessage::get_record(RecordKey::from(unhex(key))).to_vec(),
+        ["findnode_resp", key, peers] => KademliaMessage::find_node_response(unhex(key), mk_peers(peers)),
+        ["putvalue_resp", key, value] =>
+            KademliaMessage::put_value_response(RecordKey::from(unhex(key)), unhex(value)).to_vec(),
+        ["getvalue_resp", key, peers, rest @ ..] => KademliaMessage::get_value_response(
+            RecordKey::from(unhex(key)),
+            mk_peers(peers),
+            if rest.len() == 4 { Some(mk_record(rest)) } else { None },
+        ),
+        ["addprovider", key, peer] => {
+            let p = mk_peer(peer);
+            KademliaMessage::add_provider(
+                RecordKey::from(unhex(key)),
+                ContentProvider { peer: p.peer, addresses: p.addresses() },
+            )
+            .to_vec()
+        }
+        ["getproviders", key] => KademliaMessage::get_providers_request(RecordKey::from(unhex(key))).to_vec(),
+        ["getproviders_resp", providers, closer] => KademliaMessage::get_providers_response(
+            mk_peers(providers)
+                .into_iter()
+                .map(|p| ContentProvider { peer: p.peer, addresses: p.addresses() })
+                .collect(),
+            &mk_peers(closer),
+        ),
+        _ => return None,
+    })
+}
